@@ -136,6 +136,49 @@ theorem one_more (h : List Doc) (d : Doc) (s s' : Shape) (x : Doc)
       simp [wfList] at hwf
       exact merger_sound (foldl_merger_wf rest first hwf.1 hwf.2) (infer_wf hsd) (Or.inl hx)
 
+/-- a successful longer history has a successful prefix (inference is per document; merging never fails) -/
+theorem fromSourcesDoc_prefix (h : List Doc) (d : Doc) (s' : Shape) (hne : h ≠ [])
+    (h2 : fromSourcesDoc (h ++ [d]) = .ok s') : ∃ s, fromSourcesDoc h = .ok s := by
+  unfold fromSourcesDoc at h2 ⊢
+  split at h2
+  · cases h2
+  · rename_i ss' hss'
+    obtain ⟨ss, sd, hss, _⟩ := inferDocList_append_ok h d ss' hss'
+    rw [hss]
+    have pw := inferDocList_ok h ss hss
+    cases ss with
+    | nil =>
+      cases h with
+      | nil => exact absurd rfl hne
+      | cons y ys => simp [Pointwise] at pw
+    | cons first rest => exact ⟨rest.foldl merger first, by simp [merge]⟩
+
+/-- **C01, monotonicity over any extension.** Feeding any number of further documents never removes a
+previously admitted document from the shape. -/
+theorem many_more_aux : ∀ (n : Nat) (r : List Doc), r.length = n → ∀ (h : List Doc) (s s' : Shape) (x : Doc),
+    fromSourcesDoc h = .ok s → fromSourcesDoc (h ++ r) = .ok s' → admits s x = true → admits s' x = true
+  | 0, r, hr => by
+    intro h s s' x h1 h2 hx
+    have : r = [] := List.eq_nil_of_length_eq_zero hr
+    subst this; simp at h2; rw [h1] at h2; cases h2; exact hx
+  | n + 1, r, hr => by
+    intro h s s' x h1 h2 hx
+    have hrne : r ≠ [] := by intro e; subst e; simp at hr
+    have er := List.dropLast_concat_getLast hrne
+    have hl : r.dropLast.length = n := by rw [List.length_dropLast]; omega
+    have hne : h ++ r.dropLast ≠ [] := by
+      intro e
+      have : h = [] := (List.append_eq_nil_iff.1 e).1
+      subst this; simp [fromSourcesDoc, inferDocList, merge] at h1
+    rw [← er, ← List.append_assoc] at h2
+    obtain ⟨s1, e1⟩ := fromSourcesDoc_prefix (h ++ r.dropLast) _ s' hne h2
+    exact one_more (h ++ r.dropLast) _ s1 s' x e1 h2 (many_more_aux n r.dropLast hl h s s1 x h1 e1 hx)
+
+theorem many_more (h r : List Doc) (s s' : Shape) (x : Doc)
+    (h1 : fromSourcesDoc h = .ok s) (h2 : fromSourcesDoc (h ++ r) = .ok s')
+    (hx : admits s x = true) : admits s' x = true :=
+  many_more_aux r.length r rfl h s s' x h1 h2 hx
+
 /-! ### Known finding D3: the full statement is false of the code (and of the model) -/
 
 /-- the witness: `[{"a":1},{"a":"s"}]` is not a member of its own inferred shape -/
